@@ -7,13 +7,13 @@ git stash list | grep -q . && echo "WARNING: stash not empty"
 # normalise: start from a clean tree, then apply the patch
 git checkout -q -- . 2>/dev/null
 git apply --check demo/patch.diff || { echo "patch does not apply"; exit 2; }
-echo "== demo on ORIGINAL code"; bash demo/run.sh >/tmp/seed_orig.log 2>&1; r0=$?; echo "rc=$r0"
+echo "== demo on ORIGINAL code"; bash demo/run.sh >/tmp/seed_${id}_orig.log 2>&1; r0=$?; echo "rc=$r0"
 git apply demo/patch.diff
 echo "== test suite WITH change"; t=$(cargo test --workspace --no-fail-fast --offline 2>&1 | grep -E "^test result" | grep -v " 0 passed"); echo "$t"
-echo "== demo WITH change"; bash demo/run.sh >/tmp/seed_mut.log 2>&1; r1=$?; echo "rc=$r1"
+echo "== demo WITH change"; bash demo/run.sh >/tmp/seed_${id}_mut.log 2>&1; r1=$?; echo "rc=$r1"
 git status --short | grep -v '^??' | head
 if [ $r0 -eq 0 ] && [ $r1 -ne 0 ] && echo "$t" | grep -q "32 passed; 0 failed"; then
-  d=/verif/seeded/$id; mkdir -p $d; cp demo/patch.diff $d/; cp -r demo/* $d/ 2>/dev/null
+  find demo -name target -type d -prune -exec rm -rf {} + 2>/dev/null; d=/verif/seeded/$id; mkdir -p $d; cp demo/patch.diff $d/; cp -r demo/* $d/ 2>/dev/null
   echo "CONFIRMED -> $d"
 else
   echo "NOT CONFIRMED"
